@@ -448,3 +448,70 @@ func hashDynType(w *Worker, alg string) types.Type {
 	w.unsupported("hash digest type not found for " + alg)
 	return nil
 }
+
+// ---- X.509 (idealised): ParseCertificate is an arbitrary but fixed function of the DER bytes ----
+
+type x509Call struct {
+	in []*Term
+	ok *Term
+}
+
+func structFieldIndex(t types.Type, name string) int {
+	st := t.Underlying().(*types.Struct)
+	for i := 0; i < st.NumFields(); i++ {
+		if st.Field(i).Name() == name {
+			return i
+		}
+	}
+	panic("no field " + name)
+}
+
+func init() {
+	models["crypto/x509.ParseCertificate"] = func(fr *frame, a []Value) Value {
+		w := fr.w
+		T := w.T
+		der := byteTerms(w, a[0])
+		w.assumptions["x509.ParseCertificate: uninterpreted success predicate of the DER bytes (same bytes, same outcome); on success an otherwise empty Certificate whose Raw is the input"] = true
+		var okT *Term
+		for _, c := range w.x509 {
+			if len(c.in) == len(der) {
+				same := true
+				for i := range der {
+					if c.in[i] != der[i] {
+						same = false
+						break
+					}
+				}
+				if same {
+					okT = c.ok
+					break
+				}
+			}
+		}
+		if okT == nil {
+			v := w.freshVar(1, fmt.Sprintf("x509ok#%d", len(w.x509)))
+			okT = T.Eq(v, T.Const(1, 1))
+			for _, c := range w.x509 {
+				if len(c.in) != len(der) {
+					continue
+				}
+				inEq := T.True
+				for i := range der {
+					inEq = T.And(inEq, T.Eq(der[i], c.in[i]))
+				}
+				w.assume(T.Implies(inEq, T.Eq(okT, c.ok)))
+			}
+			w.x509 = append(w.x509, &x509Call{in: der, ok: okT})
+		}
+		certPtrT := fr.fn.Signature.Results().At(0).Type()
+		if w.decideBool(okT, fr) {
+			ct := certPtrT.(*types.Pointer).Elem()
+			cert := w.zero(ct).(StructV)
+			cert[structFieldIndex(ct, "Raw")] = w.bytesToSlice(append([]*Term{}, der...))
+			p := new(Value)
+			*p = cert
+			return Tuple{p, IfaceV{}}
+		}
+		return Tuple{(*Value)(nil), w.errorsNew(fr, "x509: malformed certificate (idealised)")}
+	}
+}
